@@ -76,6 +76,8 @@ Matches(e, o, o2) ==
 
 TStep ==            \* one step of the intended automaton, pinned to the log when observable
   /\ pc # "rest" /\ Next
+  \* look-ahead (pruning only): an exception put in flight must be the one the log shows next
+  /\ (flight' # flight /\ flight'.kind = "exc" /\ l <= Len(Log)) => flight'.cls = Log[l].ret_cls
   /\ IF obs' = obs THEN l' = l
      ELSE l <= Len(Log) /\ Matches(Log[l], obs, obs') /\ l' = l + 1
 
